@@ -34,18 +34,6 @@ TECHNIQUE = "Coq proof (finite sweep by vm_compute lifted with forallb_forall, i
 WATCH = 8.0
 
 
-def generate(repo):
-    """common.run_gens imports the module named "c12" - which is this harness module, already imported by
-    ./check - so delegate to the translator gen/c12.py, loaded by path under a distinct name."""
-    import importlib.util
-    import os
-    path = os.path.join(os.path.dirname(os.path.dirname(os.path.abspath(__file__))), "gen", "c12.py")
-    spec = importlib.util.spec_from_file_location("gen_c12", path)
-    mod = importlib.util.module_from_spec(spec)
-    spec.loader.exec_module(mod)
-    return mod.generate(repo)
-
-
 _quiet_done = False
 
 
@@ -265,6 +253,10 @@ def probe(ctx, pair, sender, receiver, role, ptype, payload, sentinel, fails):
         return None, [0, exn_code(receiver.saved_exception)]
     # what the receiver's packetizer counted for this packet
     got_in = next_rx(receiver, WATCH)
+    if got_in is not None and got_in[0] == 3 and ptype != 3:
+        fails.append(("unimplemented-answered", "an UNIMPLEMENTED message was itself answered (the two ends now "
+                      "bounce UNIMPLEMENTED back and forth)", case, {"receiver_read": got_in}))
+        return seq, [0, 100]
     if got_in is None or got_in[0] != ptype:
         fails.append(("packet-not-received", "receiver did not read the packet", case, repr(got_in)))
         return seq, [0, 100]
@@ -342,8 +334,8 @@ def sweep(ctx, pair, role, npay, cases_dispatch, model_sets):
             if seq is not None:
                 cases_dispatch.append(((st[0], st[1], st[2], st[3], p, seq), obs, {"receiver": role, "ptype": p,
                                                                                    "payload": payload}))
-            if obs[0] == 0:
-                ok = False
+            if obs[0] == 0 or any(f[0] == "unimplemented-answered" for f in fails):
+                ok = False      # dead, or two paramiko ends now bounce UNIMPLEMENTED forever: stop this configuration
                 break
         if not ok:
             break
@@ -480,7 +472,7 @@ def run(ctx):
                 ctx.disagree("set of unhandled types differs between model and live handler tables",
                              case={"state": list(st)}, model=got, impl=types)
         bad = ctx.model_mismatches("run_dispatch", "(bool * bool * Z * bool * Z * Z)",
-                                   [(coq(c), o) for c, o, _ in cases_dispatch])
+                                   [(coq(c), o) for c, o, _ in cases_dispatch], shard=400)
         for i in bad[:3]:
             ctx.disagree("outcome for an unhandled type differs from the model", case=cases_dispatch[i][2],
                          impl=cases_dispatch[i][1])
